@@ -38,6 +38,12 @@ Direct oracles (failing-input search):
     globals per task: each task equals the task alone on fresh objects;
   * edits of the edited-partials stream move the file's mtime backwards as often
     as forwards;
+  * date strings that name only part of a date ('10:30', 'March 3', 'Friday 9am')
+    through `date` under a clock that crosses midnight, a month and a year
+    boundary (dateutil's parser runs under the harness clock too);
+  * (Caching)FileSystemLoader over two or three search paths, same-named files
+    added to / removed from EARLIER directories between renders: equal to a new
+    loader over the same directories;
   * analysis steps (with every helper built on them, sync / async) of templates
     that include / render / extend a cached template the caller holds with its
     own globals, followed by renders of every held Template;
@@ -82,7 +88,9 @@ Definition S (s : str) : val := VStr s false.
 
 # ---------------------------------------------------------------- the clock
 
-_BASE = _dt.datetime(2001, 1, 1, 12, 0, 0)
+# tick 0 is Saturday 2000-12-30 12:00:00; a tick is one day, so the first ticks cross
+# midnight, a month boundary and a year boundary
+_BASE = _dt.datetime(2000, 12, 30, 12, 0, 0)
 
 
 class _Clock:
@@ -114,13 +122,23 @@ class FakeDate(_dt.date, metaclass=_MD):
         return (_BASE + _dt.timedelta(days=CLOCK.k)).date()
 
 
-_FAKE = types.SimpleNamespace(datetime=FakeDateTime, date=FakeDate, timedelta=_dt.timedelta)
+class _FakeDatetimeModule(types.ModuleType):
+    """The datetime module with `datetime.now()` / `date.today()` under the harness' clock."""
+
+    datetime = FakeDateTime
+    date = FakeDate
+
+    def __getattr__(self, name: str) -> Any:
+        return getattr(_dt, name)
+
+
+_FAKE = _FakeDatetimeModule("datetime")
 _PATCHED = False
 
 
 def patch_clock() -> None:
-    """Replace the `datetime` module seen by liquid2.context and by the date
-    filter, inside this process only."""
+    """Replace the `datetime` module seen by liquid2.context, by the date filter
+    and by dateutil's parser, inside this process only."""
     global _PATCHED
     if _PATCHED:
         return
@@ -129,12 +147,18 @@ def patch_clock() -> None:
 
     ctx.datetime = _FAKE  # type: ignore[attr-defined]
     misc.datetime = _FAKE  # type: ignore[attr-defined]
+    # dateutil fills the fields a date string does not name from datetime.datetime.now()
+    # (dateutil/parser/_parser.py parser.parse: `default = datetime.datetime.now().replace(...)`);
+    # that is the only clock read of the parser (its `time` uses are tz names)
+    import dateutil.parser._parser as du
+
+    du.datetime = _FAKE  # type: ignore[attr-defined]
     _PATCHED = True
 
 
 def canon(text: str) -> str:
     """Outputs are compared as they are: the model prints the harness' clock
-    (tick k = 2001-01-01 12:00:00 + k days, k < 31) exactly."""
+    (tick k = Saturday 2000-12-30 12:00:00 + k days, k <= 32) exactly."""
     return text
 
 
@@ -186,6 +210,8 @@ def src_of(p: list[tuple]) -> str:
             out.append(f"{{% macro {o[1]} a %}}{src_of(o[2])}{{% endmacro %}}")
         elif k == "Call":
             out.append(f"{{% call {o[1]} {_expr_src(o[2])} %}}")
+        elif k == "DO":
+            out.append(f"{{{{ '{o[1]}' | date: {_expr_src(o[2])} }}}}")
         elif k == "DN":
             out.append(f"{{{{ '{'today' if o[1] else 'now'}' | date: {_expr_src(o[2])} }}}}")
         elif k == "Tr":
@@ -241,6 +267,8 @@ def c_prog(p: list[tuple]) -> str:
             xs.append(f"DefMacro {C.cstr(o[1])} {c_prog(o[2])}")
         elif k == "Call":
             xs.append(f"CallMacro {C.cstr(o[1])} {c_expr(o[2])}")
+        elif k == "DO":
+            xs.append(f"DateOf {C.cstr(o[1])} {c_expr(o[2])}")
         elif k == "DN":
             xs.append(f"DateNow {C.cbool(o[1])} {c_expr(o[2])}")
         elif k == "Tr":
@@ -718,7 +746,7 @@ def _handle(req: tuple) -> Any:
         thorough = req[1]
         hist = list(corpus())
         hist += fault_sweeps(r, 60 if thorough else 8)
-        for _ in range(2500 if thorough else 190):
+        for _ in range(2500 if thorough else 170):
             hist.append(gen_history(r, 10 if thorough else 6))
         return hist
     if req[0] == "rawrender":
@@ -1027,6 +1055,9 @@ LOCALS = ["l", "x", "c"]
 COUNTERS = ["c", "x", "n"]
 ARRS = ["arr", "x", "l"]
 TEXTS = ["t", "<", "u ", "&"]
+# date strings that name only part of a date: the rest comes from the clock at render time
+# (time only, month and day, weekday); "noon" is not a date for dateutil and comes back unchanged
+DATE_STRINGS = ["10:30", "March 3", "Friday 9am", "noon"]
 FMTS = ["%Y-%m-%d", "<b>%Y-%m-%d", "q"]
 FILTERS = ["upcase", "bang", "date", "sh"]
 KEYS = ["k", "j"]
@@ -1038,7 +1069,7 @@ def gen_expr(r: Any, lits: list[str] = TEXTS) -> tuple:
 
 def gen_op(r: Any, depth: int, names: list[str]) -> tuple:
     kinds = ["T", "E", "E", "EF", "D", "D", "I", "I", "Dc", "C", "FC", "FC", "FA", "A", "A", "Cap", "M",
-             "Call", "Call", "DN", "DN", "DN", "Tr", "Fail", "now", "now"]
+             "Call", "Call", "DN", "DN", "DO", "DO", "DO", "Tr", "Fail", "now", "now"]
     if names:
         kinds += ["Inc", "Inc", "Ren", "Ren"]
     if depth >= 2:
@@ -1072,6 +1103,9 @@ def gen_op(r: Any, depth: int, names: list[str]) -> tuple:
         return ("M", r.choice(["m", "n"]), gen_prog(r, depth + 1, names, lo=1, hi=3))
     if k == "Call":
         return ("Call", r.choice(["m", "n"]), gen_expr(r))
+    if k == "DO":
+        e = ("L", r.choice(FMTS[:2])) if r.random() < 0.75 else ("V", r.choice(["f", "x", "nosuch"]))
+        return ("DO", r.choice(DATE_STRINGS), e)
     if k == "DN":
         e = ("L", r.choice(FMTS)) if r.random() < 0.6 else ("V", r.choice(["f", "x", "nosuch"]))
         return ("DN", r.random() < 0.3, e)
@@ -1317,6 +1351,18 @@ def corpus() -> list[list[tuple]]:
     hs.append([("fs", 0, timey, []), ("r", ("own", 0), [], None, None, False), ("tick",),
                ("r", ("own", 0), [], None, None, False), ("tick",), ("tick",),
                ("r", ("own", 0), [], None, None, True), ("qr", timey, [], None, None, False)])
+    # date strings that name only part of a date, across midnight, the end of a month and of a year
+    party = []
+    for ds in DATE_STRINGS:
+        party += [("DO", ds, ("L", "%Y-%m-%d")), ("T", "|")]
+    party += [("DO", "10:30", ("V", "f")), ("DO", "March 3", ("L", "<b>%Y-%m-%d"))]
+    fdata = [("f", S("%Y-%m-%d"))]
+    hs.append([("fs", 0, party, []), ("r", ("own", 0), fdata, None, None, False), ("tick",),
+               ("r", ("own", 0), fdata, None, None, True), ("tick",), ("qr", party, fdata, None, None, False),
+               ("r", ("own", 0), fdata, None, None, False), ("tick",), ("tick",), ("tick",), ("tick",), ("tick",),
+               ("r", ("own", 0), fdata, None, None, False), ("env", True, False, [], [], []), ("fs", 1, party, []),
+               ("r", ("own", 1), fdata, None, None, False), ("tick",), ("r", ("own", 1), fdata, None, None, True),
+               ("r", ("own", 0), fdata, None, None, False)])
     # literal vs data-supplied date format under auto-escape (Markup == str in a cache key)
     hs.append([("env", True, False, [], [], []), ("fs", 1, [("DN", False, ("L", "<b>%Y-%m-%d"))], []),
                ("fs", 1, [("DN", False, ("V", "f"))], []), ("r", ("own", 0), [], None, None, False),
@@ -1601,6 +1647,168 @@ def fs_case(step: dict[str, Any]) -> tuple[list[tuple], list[dict[str, Any]]]:
     else:
         exp = [("unit",)] * (1 + step["tick"]) + [("own", 0), obs]
     return ops, [{"obs": o, "snap": [[], []]} for o in exp]
+
+
+# ---------------------------------------------------------------- several search paths: overrides added and removed
+
+
+def shadow_scenario(r: Any) -> dict[str, Any]:
+    """A (Caching)FileSystemLoader over two or three directories.  Everything
+    starts in the LAST directory; same-named files are then added to (and
+    removed from) EARLIER directories between renders."""
+    ndirs = r.choice([2, 2, 3])
+    ver = [0]
+
+    def body(tag: str, names: list[str]) -> list[tuple]:
+        ver[0] += 1
+        return [("T", f"<{tag}.{ver[0]}>")] + gen_prog(r, 1, names, 0, 1)
+
+    def make(name: str, tag: str) -> list[tuple]:
+        if name == "q":
+            return body("q" + tag, [])
+        if name == "p":
+            return body("p" + tag, []) + [r.choice([("Inc", "q"), ("Ren", "q")])]
+        if name == "ba":
+            return [("T", "[")] + body("ba" + tag, []) + [("B", "b", body("b" + tag, []) + [("Inc", "p")]), ("T", "]")]
+        if name == "ch":
+            return [("Ext", "ba"), ("B", "b", body("ch" + tag, []) + [r.choice([("Inc", "p"), ("Ren", "q")])])]
+        if name == "m1":
+            return body("m1" + tag, []) + [("Inc", "p"), ("I", "c")]
+        return body("m2" + tag, []) + [("Ren", "p"), ("M", "m", [("Ren", "q"), ("E", "a")]), ("Call", "m", ("L", "t")), ("Inc", "ch")]
+
+    names = ["q", "p", "ba", "ch", "m1", "m2"]
+    dirs: list[dict[str, list[tuple]]] = [{} for _ in range(ndirs)]
+    for n in names:
+        dirs[-1][n] = make(n, "@%d" % (ndirs - 1))
+    deps = {"m1": ["p", "q"], "m2": ["p", "q", "ch", "ba"], "ch": ["ba", "p", "q"], "ba": ["p", "q"], "p": ["q"]}
+    top = r.choice(["m1", "m2", "ch", "ba", "p"])
+    data = [("x", ("s", "dx")), ("arr", ("l", ["a", "b", "c"]))]
+    script: list[tuple] = [("get", top, r.random() < 0.5), ("render", 0, data, r.random() < 0.5)]
+    handles = 1
+    present = [set(d) for d in dirs]
+    for _ in range(r.randint(2, 5)):
+        target = top if r.random() < 0.25 else r.choice(deps[top])
+        over = [d for d in range(ndirs - 1) if target in present[d]]
+        if over and r.random() < 0.45:
+            d = r.choice(over)
+            script.append(("remove", d, target))          # the override goes away again
+            present[d].discard(target)
+        else:
+            d = r.randrange(ndirs - 1)
+            script.append(("put", d, target, make(target, "@%d" % d)))   # site / theme override (or a new version of it)
+            present[d].add(target)
+        script.append(("render", r.randrange(handles), data, r.random() < 0.5))
+        if r.random() < 0.7:
+            script.append(("get", top, r.random() < 0.5))
+            handles += 1
+            script.append(("render", handles - 1, data, r.random() < 0.5))
+    return {"dirs": dirs, "script": script, "top": top, "caching": r.random() < 0.6}
+
+
+def run_shadow_scenario(sc: dict[str, Any]) -> list[dict[str, Any]]:
+    import liquid2
+
+    root = _scratch()
+    loop = asyncio.new_event_loop()
+    try:
+        CLOCK.k = 0
+        dirs: list[dict[str, list[tuple]]] = [dict(d) for d in sc["dirs"]]
+        paths = []
+        for i, d in enumerate(dirs):
+            p = os.path.join(root, f"d{i}")
+            os.mkdir(p)
+            paths.append(p)
+            _write_tree(p, {n: src_of(pr) for n, pr in d.items()}, 0)
+        cls = liquid2.CachingFileSystemLoader if sc["caching"] else liquid2.FileSystemLoader
+        env = liquid2.Environment(loader=cls(paths))
+
+        def effective() -> dict[str, list[tuple]]:
+            out: dict[str, list[tuple]] = {}
+            for d in reversed(dirs):
+                out.update(d)
+            return out
+
+        seen: dict[str, list[list[tuple]]] = {n: [p] for n, p in effective().items()}
+        handles: list[tuple[str, Any, list[tuple] | None]] = []
+        stamp = 0
+        out = []
+        for st in sc["script"]:
+            k = st[0]
+            if k == "get":
+                try:
+                    t = (loop.run_until_complete(env.get_template_async(st[1])) if st[2] else env.get_template(st[1]))
+                except Exception as e:  # noqa: BLE001
+                    t = exc_obs(e)
+                handles.append((st[1], t, effective().get(st[1])))
+            elif k == "put":
+                stamp += 1
+                dirs[st[1]][st[2]] = list(st[3])
+                _write_tree(paths[st[1]], {st[2]: src_of(st[3])}, stamp * (-1 if stamp % 2 else 1))
+            elif k == "remove":
+                dirs[st[1]].pop(st[2], None)
+                try:
+                    os.unlink(os.path.join(paths[st[1]], st[2]))
+                except FileNotFoundError:
+                    pass
+            if k in ("put", "remove"):
+                for n, p in effective().items():
+                    if p not in seen.setdefault(n, []):
+                        seen[n].append(p)
+            if k == "render":
+                name, t, own = handles[st[1]]
+                inputs = effective()
+                if own is not None:
+                    inputs[name] = own
+                else:
+                    inputs.pop(name, None)
+                if isinstance(t, tuple):
+                    obs = t
+                else:
+                    d = py_map(st[2])
+                    obs = _call(loop, lambda: t.render(**d), lambda: t.render_async(**d), st[3])
+                out.append({"obs": obs, "name": name, "files": inputs, "data": st[2], "async": st[3], "tick": 0,
+                            "fetch_failed": isinstance(t, tuple), "backward_edits_so_far": 0,
+                            "earlier_meanings": {n: len(ps) - 1 for n, ps in seen.items() if len(ps) > 1},
+                            "versions": {n: list(ps) for n, ps in seen.items()},
+                            "once_effective_markers": set().union(*[_markers(p) for ps in seen.values() for p in ps])})
+        return out
+    finally:
+        loop.close()
+        shutil.rmtree(root, ignore_errors=True)
+
+
+_MARK = re.compile(r"<[a-z0-9]+@\d+\.\d+>")
+
+
+def _markers(p: list[tuple]) -> set[str]:
+    out: set[str] = set()
+    for o in p:
+        if o[0] == "T":
+            out |= set(_MARK.findall(o[1]))
+        elif o[0] in ("Cap", "M", "B"):
+            out |= _markers(o[2])
+    return out
+
+
+def explained_by_stale_resolution(st: dict[str, Any]) -> bool:
+    """Is the observation made only of versions that each were, at some moment
+    of the scenario, what their name meant (the known finding: a cached
+    template is only re-validated against the file it was read from, so a name
+    may still mean the file it meant earlier)?  Every version carries a unique
+    marker text."""
+    if st["obs"][0] == "text":
+        return set(_MARK.findall(st["obs"][1])) <= st["once_effective_markers"]
+    # an error: try the earlier meanings of the names that changed (bounded)
+    import itertools
+
+    alts = [(n, ps) for n, ps in st["versions"].items() if len(ps) > 1][:5]
+    for combo in itertools.islice(itertools.product(*[ps for _, ps in alts]), 96):
+        files = dict(st["files"])
+        for (n, _), p in zip(alts, combo):
+            files[n] = p
+        if fs_fresh_render({k: src_of(p) for k, p in files.items()}, st["name"], st["data"], False, st["tick"]) == st["obs"]:
+            return True
+    return False
 
 
 # ---------------------------------------------------------------- overlapping async loads on a cold cache
@@ -2126,8 +2334,10 @@ def _main(chk: C.Check, pristine: Pristine) -> None:
             # direct oracle 0: a time-dependent value printed by a render is the clock's value now
             if kind == "text" and not _mentions_dates(o):
                 tick = sum(1 for x in ops[:i] if x[0] == "tick")
-                stale = [m for m in re.findall(r"2001-\d\d-\d\d", s["obs"][1])
-                         if m != (_BASE + _dt.timedelta(days=tick)).strftime("%Y-%m-%d")]
+                today = (_BASE + _dt.timedelta(days=tick)).date()
+                ok_dates = {today.isoformat(), f"{today.year}-03-03",
+                            (today + _dt.timedelta(days=(4 - today.weekday()) % 7)).isoformat()}
+                stale = [m for m in re.findall(r"20\d\d-\d\d-\d\d", s["obs"][1]) if m not in ok_dates]
                 if stale:
                     chk.finding("oracle:stale-clock-value",
                                 f"step {i} at clock tick {tick} printed the date {stale[0]}",
@@ -2178,7 +2388,7 @@ def _main(chk: C.Check, pristine: Pristine) -> None:
 
     # partials edited on disk behind a CachingFileSystemLoader(auto_reload=True)
     n_fs = n_fs_edits_seen = n_fs_back = 0
-    for _ in range(400 if thorough else 24):
+    for _ in range(400 if thorough else 18):
         sc = fs_scenario(r)
         last_by_name: dict[str, tuple] = {}
         for st in run_fs_scenario(sc):
@@ -2202,9 +2412,42 @@ def _main(chk: C.Check, pristine: Pristine) -> None:
             case, model = c_case(ops_m, exp_m)
             items.append({"case": case, "model": model,
                           "replay": {"fs_render": st["name"], "files": srcs, "implementation": st["obs"]}})
+    # several search paths: overrides added to / removed from earlier directories
+    n_sh = n_sh_changed = n_sh_known = 0
+    for _ in range(300 if thorough else 18):
+        sc = shadow_scenario(r)
+        for st in run_shadow_scenario(sc):
+            n_sh += 1
+            n_sh_changed += bool(st["earlier_meanings"])
+            srcs = {k: src_of(p) for k, p in st["files"].items()}
+            fr = fs_fresh_render(srcs, st["name"], st["data"], st["async"], st["tick"])
+            pr = pristine.call(("fsrender", srcs, st["name"], st["data"], st["async"], st["tick"]))
+            n_pristine += 1
+            if fr != st["obs"] or pr != st["obs"]:
+                replay = {"script": sc["script"], "directories_at_start": [{k: src_of(p) for k, p in d.items()} for d in sc["dirs"]],
+                          "loader": "CachingFileSystemLoader" if sc["caching"] else "FileSystemLoader",
+                          "effective_files_now": srcs, "template": st["name"], "observed": st["obs"], "fresh": fr,
+                          "how": "harness/c09.py run_shadow_scenario / fs_fresh_render"}
+                what = (f"{st['name']} through a {replay['loader']} over {len(sc['dirs'])} search paths, after a same-named file was "
+                        f"added to / removed from an earlier directory, gives {st['obs']}; a new loader over the same directories "
+                        f"gives {fr}")
+                if sc["caching"] and fr == pr and explained_by_stale_resolution(st):
+                    n_sh_known += 1
+                    chk.finding("caching-fs-loader-ignores-shadowing-file", what, replay)
+                else:
+                    chk.finding("fs-shadow:differs-from-fresh", what + f" (pristine process: {pr})", replay)
+                continue
+            ops_m, exp_m = fs_case(st)
+            case, model = c_case(ops_m, exp_m)
+            items.append({"case": case, "model": model,
+                          "replay": {"shadow_render": st["name"], "files": srcs, "implementation": st["obs"]}})
+    dist["shadow-renders"] = n_sh
+    dist["shadow-renders-after-a-name-changed-meaning"] = n_sh_changed
+    dist["shadow-renders-explained-by-known-finding"] = n_sh_known
+
     # overlapping async loads on a cold caching loader, different globals per task
     n_conc = n_conc_collide = 0
-    for _ in range(400 if thorough else 36):
+    for _ in range(400 if thorough else 28):
         sc = conc_scenario(r)
         res = run_conc_scenario(sc)
         for wi, (tasks, outs) in enumerate(zip(sc["waves"], res)):
@@ -2232,7 +2475,7 @@ def _main(chk: C.Check, pristine: Pristine) -> None:
                                          "templates": {n: src_of(p) for n, p in sc["store"]}}})
     # choice loaders whose delegates fail transiently: a faulty load fails and leaves nothing behind
     n_choice = n_choice_fired = n_choice_dup = 0
-    for _ in range(400 if thorough else 30):
+    for _ in range(400 if thorough else 24):
         sc = choice_scenario(r)
         for res in run_choice_scenario(sc):
             st, obs = res["step"], res["obs"]
@@ -2308,7 +2551,7 @@ def _main(chk: C.Check, pristine: Pristine) -> None:
         "Environment, Parser, Tag and Template objects to a bounded depth; state hidden in closures or C extensions is only caught "
         "behaviourally (pristine-process replays)",
         "resource limits off; names args/kwargs/block/forloop/translations/size/first/last not used as variables; ASCII text",
-        "the clock is the harness' patched datetime in liquid2.context and liquid2.builtin.filters.misc; tick k is 2001-01-01 12:00:00 + k days and the model prints it exactly (k < 31)",
+        "the clock is the harness' patched datetime in liquid2.context and liquid2.builtin.filters.misc; and dateutil.parser._parser (the only clock read of dateutil's parser is datetime.datetime.now() for the default date; it does not use time.time); tick k is Saturday 2000-12-30 12:00:00 + k days (crossing a month and a year boundary) and the model prints it exactly (k <= 32)",
         "sync and async renders are run through the same model step (their equality is C03's theorem)",
         "concurrent renders: each render owns its RenderContext; the only shared state is the session state modelled here; "
         "the schedule-level theorem (interleavings) belongs to C03",
@@ -2317,7 +2560,7 @@ def _main(chk: C.Check, pristine: Pristine) -> None:
 
 def _mentions_dates(o: tuple) -> bool:
     """Render arguments that themselves contain a date text (never generated)."""
-    return "2001-" in repr(o)
+    return bool(re.search(r"20\d\d-", repr(o)))
 
 
 def _sources(ops: list[tuple]) -> dict[str, Any]:
@@ -2337,7 +2580,7 @@ def _signature(o: tuple, got: tuple, fresh: tuple) -> str:
     kind = {"r": "render", "qr": "liquid2.render", "an": "analyze", "fs": "from_string", "gt": "get_template"}[o[0]]
     if got[0] == "text" and fresh[0] == "text":
         a, b = got[1], fresh[1]
-        if re.sub(r"2001-\d\d-\d\d", "@", a) == re.sub(r"2001-\d\d-\d\d", "@", b):
+        if re.sub(r"20\d\d-\d\d-\d\d", "@", a) == re.sub(r"20\d\d-\d\d-\d\d", "@", b):
             return f"oracle:{kind}:stale-timestamp"
         if a.replace("&lt;", "<").replace("&gt;", ">").replace("&amp;", "&") == \
                 b.replace("&lt;", "<").replace("&gt;", ">").replace("&amp;", "&"):
